@@ -434,6 +434,99 @@ pub fn c01_special_ladder(rec: &mut Rec) {
     }
 }
 
+
+/// KZG10::batch_check under private rayon pools of 2, 3, 4 and 8 threads on batches of 10 and 17 openings: the
+/// all-true batch, every single position falsified, and every pair of positions carrying +d / -d.  The batch
+/// decision must be the AND of the individual decisions (computed outside the pool) for every pool size: a
+/// verifier that splits its batch by `current_num_threads()` may neither skip positions nor reuse weights.
+/// `prop` selects what is reported: "C02" the single false claims, "C05" everything.
+pub fn kzg_batch_threads(rec: &mut Rec, prop: &str) {
+    let pp = kzg_setup(6, false, rec.seed, 0);
+    let vk = kzg_vk(&pp);
+    let powers = kzg_powers(&pp, 6, 3);
+    let r = rho_stream::<Fr381>(rec.seed, 51, 40);
+    let p = UP::<Fr381>::from_coefficients_slice(&r[..6]);
+    rec.scope(format!("KZG10::batch_check inside rayon pools of {{2,3,4,8}} threads: batches of 10 and 17 openings, every single false claim{}", if prop == "C05" { ", every cancelling pair" } else { "" }));
+    for threads in [2usize, 3, 4, 8] {
+        for n in [10usize, 17] {
+            for hiding in [None, Some(1usize)] {
+                let id = format!("KZG/{}/threads={}/n={}/hiding={:?}", prop, threads, n, hiding);
+                if !rec.take(&id) {
+                    continue;
+                }
+                rec.dim("scheme", "KZG");
+                rec.dim("threads", &threads.to_string());
+                let mut rng = seed_rng(rec.seed, 0);
+                let (c, st) = match flat(catch(|| Kzg::commit(&powers, &p, hiding, Some(&mut rng as &mut dyn RngCore)))) {
+                    Ok(x) => x,
+                    Err(_) => continue,
+                };
+                let zs: Vec<Fr381> = (0..n).map(|i| r[10 + i]).collect();
+                let pfs: Vec<kzg10::Proof<E381>> = match zs.iter().map(|z| Kzg::open(&powers, &p, *z, &st)).collect::<Result<Vec<_>, _>>() {
+                    Ok(x) => x,
+                    Err(_) => continue,
+                };
+                let vs: Vec<Fr381> = zs.iter().map(|z| p.evaluate(z)).collect();
+                let cs = vec![c; n];
+                let seed = rec.seed;
+                let pairs = prop == "C05";
+                let dlt = r[3];
+                let vkr = &vk;
+                // (all-true, each single false, each cancelling pair) decided inside the pool
+                let (d_true, d_single, d_pairs): (Dec, Vec<Dec>, Vec<(usize, usize, Dec)>) = with_threads(threads, || {
+                    let d_true = kzg_batch_check(vkr, &cs, &zs, &vs, &pfs, seed, 0);
+                    let mut d_single = Vec::new();
+                    for i in 0..n {
+                        let mut bad = vs.clone();
+                        bad[i] += Fr381::one();
+                        d_single.push(kzg_batch_check(vkr, &cs, &zs, &bad, &pfs, seed, 0));
+                    }
+                    let mut d_pairs = Vec::new();
+                    if pairs {
+                        for i in 0..n {
+                            for j in (i + 1)..n {
+                                let mut bad = vs.clone();
+                                bad[i] += dlt;
+                                bad[j] -= dlt;
+                                d_pairs.push((i, j, kzg_batch_check(vkr, &cs, &zs, &bad, &pfs, seed, 1)));
+                            }
+                        }
+                    }
+                    (d_true, d_single, d_pairs)
+                });
+                rec.op((1 + n + d_pairs.len()) as u64);
+                rec.count_points((n + d_pairs.len()) as u64);
+                // the individual decisions (outside the pool): every true claim is accepted, every false one is not
+                let indiv_true = (0..n).all(|i| kzg_check(&vk, &cs[i], zs[i], vs[i], &pfs[i]).accepted());
+                let indiv_false = (0..n).all(|i| !kzg_check(&vk, &cs[i], zs[i], vs[i] + Fr381::one(), &pfs[i]).accepted() && !kzg_check(&vk, &cs[i], zs[i], vs[i] + dlt, &pfs[i]).accepted() && !kzg_check(&vk, &cs[i], zs[i], vs[i] - dlt, &pfs[i]).accepted());
+                if !indiv_true || !indiv_false {
+                    rec.class("individual-checks-unexpected");
+                    continue;
+                }
+                rec.class("pool-batch-checked");
+                if !d_true.accepted() {
+                    rec.violation(&format!("{}/KZG/batch_check/in-pool/honest-rejected", if prop == "C05" { "C05" } else { "C02" }), &id, format!("all-true batch of {} openings not accepted inside a pool of {} threads: {}", n, threads, d_true.short()));
+                }
+                for (i, d) in d_single.iter().enumerate() {
+                    rec.class(&format!("fault-{}", d.class()));
+                    if d.accepted() {
+                        if prop == "C05" {
+                            rec.violation("C05/KZG/batch_check/in-pool/false-subset/batch-accepts", &id, format!("claim {} of {} false, batch accepted inside a pool of {} threads while the individual check rejects", i, n, threads));
+                        } else {
+                            rec.violation("C02/KZG/batch_check/in-pool/value+delta", &id, format!("false statement accepted: value[{}]+1 in a batch of {} inside a pool of {} threads", i, n, threads));
+                        }
+                    }
+                }
+                for (i, j, d) in d_pairs.iter() {
+                    if d.accepted() {
+                        rec.violation("C05/KZG/batch_check/in-pool/cancelling-pair/batch-accepts", &id, format!("claims {} and {} of {} carry +d / -d, batch accepted inside a pool of {} threads while both individual checks reject", i, j, n, threads));
+                    }
+                }
+            }
+        }
+    }
+}
+
 fn c02_expect(rec: &mut Rec, d: &Dec, sch: &str, entry: &str, op: &str, id: &str, detail: String) {
     rec.count_points(1);
     rec.op(1);
@@ -445,6 +538,7 @@ fn c02_expect(rec: &mut Rec, d: &Dec, sch: &str, entry: &str, op: &str, id: &str
 }
 
 pub fn c02_special(rec: &mut Rec) {
+    kzg_batch_threads(rec, "C02");
     let dmax = if rec.thorough() { 8 } else { 4 };
     let deltas = crate::checks::c02::deltas::<Fr381>(rec.seed);
     let pts = crate::sch::uni_points::<Fr381>(rec.seed);
@@ -653,6 +747,7 @@ fn c05_cmp(rec: &mut Rec, sch: &str, entry: &str, op: &str, id: &str, want: bool
 }
 
 pub fn c05_special(rec: &mut Rec) {
+    kzg_batch_threads(rec, "C05");
     // ---- KZG10::batch_check: three claims, two of them at the same point
     let pp = kzg_setup(6, false, rec.seed, 0);
     let vk = kzg_vk(&pp);
